@@ -14,7 +14,7 @@ CFGS = [dict(max_msgs=3, flush=True, relay_pool=1), dict(max_msgs=3, flush=False
 
 
 def run(ctx):
-    for backend in ('dict', 'disk', 'cloud', 'redis'):
+    for backend in ('dict', 'shelve', 'disk', 'cloud', 'redis'):
         qharness.scripted_rounds(ctx, ('c03',), backend)
         qharness.scripted_restart(ctx, ('c03',), backend)
     ctx.extra['rule'] = ('random schedules as for C12 (per-recipient outcome histories over several rounds with 1-4 recipients, backoff 0 included, '
